@@ -88,6 +88,7 @@ type CallObs struct {
 	RespTrailer  http.Header
 	RawHeader    http.Header // uncopied
 	RawTrailer   http.Header
+	ForeignTouch string      // the error handed to this call already carried another call's annotation
 	TrailerLater http.Header // the response trailers after further Receives past the end of the stream
 	PeekHeader   http.Header // ResponseHeader() read before the first Receive
 	Peeked       bool
@@ -283,6 +284,20 @@ func (t *tagInterceptor) WrapStreamingHandler(next connect.StreamingHandlerFunc)
 		}
 		return next(ctx, conn)
 	}
+}
+
+// touchErr is what user code may do with an error it was handed: annotate its
+// metadata. (Only in worlds that ask for it.) An annotation made by another
+// call must not be there already.
+func (w *World) touchErr(o *CallObs, err error) {
+	var ce *connect.Error
+	if !w.Sc.TouchErrors || !errors.As(err, &ce) {
+		return
+	}
+	if v := ce.Meta().Get("Z-Seen-By"); v != "" && v != o.Plan.ID {
+		o.ForeignTouch = v
+	}
+	ce.Meta().Set("Z-Seen-By", o.Plan.ID)
 }
 
 // ownErr is the error the handler function itself returns (none when the
@@ -1053,6 +1068,7 @@ func (w *World) runCall(t *core.Task, o *CallObs) {
 							o.Recv = append(o.Recv, r.Msg)
 							o.RecvRaw = append(o.RecvRaw, m)
 						} else {
+							w.touchErr(o, err)
 							stop = true
 							if errors.Is(err, io.EOF) {
 								w.setFinal(o, nil)
